@@ -1,6 +1,7 @@
 package main
 
 import (
+	"bytes"
 	"bufio"
 	"encoding/json"
 	"flag"
@@ -87,3 +88,19 @@ func cmdRun(in, out string) error {
 	}
 	return nil
 }
+
+func roundTrip(ev M) M {
+	bz, err := json.Marshal(ev)
+	if err != nil {
+		panic(err)
+	}
+	var out M
+	d := json.NewDecoder(bytesReader(bz))
+	d.UseNumber()
+	if err := d.Decode(&out); err != nil {
+		panic(err)
+	}
+	return out
+}
+
+func bytesReader(b []byte) *bytes.Reader { return bytes.NewReader(b) }
